@@ -800,7 +800,7 @@ pub fn convert<W: std::io::Write + Send + 'static>(
             Ok(fi) => {
                 info!(log, "opened file {} {:?}", &input_file_name, &fi);
                 let buf_reader =
-                    LowMarkBufReader::new(fi, BUFREADER_CAPACITY, DLT_MAX_STORAGE_MSG_SIZE);
+                    LowMarkBufReader::new(fi, BUFREADER_CAPACITY, DLT_MAX_STORAGE_MSG_SIZE + 4); // + 4 as the parser checks whether the next msg header follows
                 get_dlt_message_iterator(
                     std::path::Path::new(&input_file_name)
                         .extension()
